@@ -29,12 +29,32 @@ def chain_text(ops, operands=None, sep=' '):
     return sep.join(parts)
 
 
-def chains(alphabet_size, prefix, max_len):
-    """Every index tuple over range(alphabet_size) that starts with `prefix`, of length len(prefix)..max_len,
-    shortest first."""
-    for n in range(len(prefix), max_len + 1):
+def chains(alphabet_size, prefix, min_len, max_len):
+    """Every index tuple over range(alphabet_size) that starts with `prefix`, of length min_len..max_len, shortest first."""
+    for n in range(max(min_len, len(prefix)), max_len + 1):
         for rest in itertools.product(range(alphabet_size), repeat=n - len(prefix)):
             yield tuple(prefix) + rest
+
+
+SHORT = 3
+
+
+def chain_units(alphabet_size):
+    """Work units, simplest first: ['s', k] all sequences of length k (k < SHORT); ['s', SHORT, i] those of length SHORT
+    starting with i; ['l', i, j] all longer sequences starting with i, j."""
+    units = [['s', k] for k in range(1, SHORT)]
+    units += [['s', SHORT, i] for i in range(alphabet_size)]
+    units += [['l', i, j] for i in range(alphabet_size) for j in range(alphabet_size)]
+    return units
+
+
+def unit_chains(alphabet_size, unit, max_len):
+    if unit[0] == 's':
+        k = unit[1]
+        if k > max_len:
+            return iter(())
+        return chains(alphabet_size, tuple(unit[2:]), k, k)
+    return chains(alphabet_size, (unit[1], unit[2]), SHORT + 1, max_len)
 
 
 # Operand decorations: name -> template. {v} the plain operand, {L}/{R} the operator left/right of the position (the
@@ -312,6 +332,7 @@ def matrix_pool(tier, script_fn):
             ('-7.0', -7.0),
             ('1e-300', 1e-300),
             ('86400000', 86400000),
+            ('2^53 int', 2 ** 53),
             ("'A'", 'A'),
             ("'null'", 'null'),
             ("' '", ' '),
